@@ -4,11 +4,11 @@
 Require Extraction.
 From Coq Require Import ExtrOcamlBasic.
 From Coq Require Import List ZArith.
-From YG Require Import LRBase LR0Build Resolve TableCert LAExec PackCore Pipeline DriverSim Drivers Oracle FsModel Front Lexer YParser EndToEnd Draw EmitAction EscapeDot Fast EndToEndProofs.
+From YG Require Import LRBase LR0Build Resolve TableCert LAExec PackCore Pipeline DriverSim Drivers Oracle FsModel Front Lexer YParser EndToEnd Draw EmitAction EscapeDot Fast EndToEndProofs WfGrammar.
 Extraction Language OCaml.
 Extraction "model.ml"
   Pipeline.generate_tables Pipeline.unpack Pipeline.pack_matrix Pipeline.packed_lookup Pipeline.cellz
   Pipeline.decode_z Pipeline.nullable_list Pipeline.productive_list Pipeline.is_nt_b
   Resolve.resolve_pair Resolve.default_pair Oracle.replay Drivers.parse Drivers.history Drivers.parse_from_tab Drivers.history_tab Drivers.is_object Drivers.linear_act Drivers.table_of
-  FsModel.predict Front.front Front.visit Front.valid_codes Lexer.lex YParser.parse_text EndToEnd.generate_text Draw.draw_nodes Draw.draw_edges EmitAction.subst_action EscapeDot.escape EscapeDot.unescape EscapeDot.splitp Fast.generate_dense Fast.generate_tables_fast EndToEndProofs.generate_text_fast
+  FsModel.predict Front.front Front.visit Front.valid_codes Lexer.lex YParser.parse_text EndToEnd.generate_text Draw.draw_nodes Draw.draw_edges EmitAction.subst_action EscapeDot.escape EscapeDot.unescape EscapeDot.splitp Fast.generate_dense Fast.generate_tables_fast EndToEndProofs.generate_text_fast WfGrammar.wf_gi
   BinInt.Z.of_nat BinInt.Z.to_nat BinInt.Z.add BinInt.Z.opp.
